@@ -114,6 +114,9 @@ def run_property(pid, tier):
                 base["status"] = "discharged"
                 (bounded_checks if h["kind"].startswith("Kb") else obligations).append(base)
             elif r["status"] == "failed" and r["failed_checks"]:
+                if any("unwinding assertion" in c.get("desc", "") for c in r["failed_checks"]):
+                    undecided.append("kani harness %s: unwinding bound too small (%s)" % (h["id"], r["failed_checks"][0].get("loc", "")[-120:]))
+                    continue
                 for c in r["failed_checks"]:
                     desc = c.get("desc", "")
                     locfn = (c.get("loc", "").split(" in function ")[-1]).split("::")[-1]
